@@ -227,9 +227,9 @@ type node struct {
 }
 
 type cluster struct {
-	part   string
-	nodes  []node
-	vnodes bool // some node owns more than one token
+	part    string
+	nodes   []node
+	vnodes  bool // some node owns more than one token
 	tokless bool // some node owns no token
 }
 
@@ -285,7 +285,7 @@ func genCluster(r *vh.Rng, forceSingle bool) cluster {
 	}
 	mode := r.Intn(4)
 	used := map[string]bool{}
-	toklessOK := r.Intn(25) == 0
+	toklessOK := r.Intn(8) == 0
 	for i := 0; i < n; i++ {
 		dc := 1 + r.Intn(nDC)
 		if r.Intn(3) == 0 {
@@ -501,10 +501,48 @@ func (ru *run) cluster(c cluster, rfsList []string, simpleRfs []int, lookLimit i
 		ru.out.Dist["nts/"+shape+"/"+k]++
 		delete(ru.out.Dist, "")
 		ru.emit("ntsfor "+rfs+" "+tl, "ntsfor", true)
-		if !c.tokless {
-			ru.emit("snts "+rfs+" "+tl, "snts(spec)/"+k, true)
+		// compared with Cassandra's placement (Spec.nts) on every cluster: vnodes, token-less hosts,
+		// datacenters unknown to the ring or to the keyspace
+		ru.emit("snts "+rfs+" "+tl, "snts(spec)/"+shape+"/"+unknownDCs(c, rfs)+"/"+k, true)
+	}
+}
+
+// unknownDCs classifies a keyspace against the ring: does it name a datacenter (rf > 0) the ring does not contain,
+// does the ring contain a datacenter the keyspace does not replicate to
+func unknownDCs(c cluster, rfs string) string {
+	ringDC := map[string]bool{}
+	for _, n := range c.nodes {
+		if len(n.toks) > 0 {
+			ringDC[fmt.Sprint(n.dc)] = true
 		}
 	}
+	ksDC := map[string]bool{}
+	ksOnly, ringOnly := false, false
+	if rfs != "-" {
+		for _, kv := range strings.Split(rfs, ",") {
+			p := strings.SplitN(kv, "=", 2)
+			if p[1] != "0" {
+				ksDC[p[0]] = true
+				if !ringDC[p[0]] {
+					ksOnly = true
+				}
+			}
+		}
+	}
+	for d := range ringDC {
+		if !ksDC[d] {
+			ringOnly = true
+		}
+	}
+	switch {
+	case ksOnly && ringOnly:
+		return "ks-dc-absent+ring-dc-unreplicated"
+	case ksOnly:
+		return "ks-dc-absent-from-ring"
+	case ringOnly:
+		return "ring-dc-unreplicated"
+	}
+	return "dcs-match"
 }
 
 func min(a, b int) int {
@@ -514,7 +552,7 @@ func min(a, b int) int {
 	return b
 }
 
-// fixed clusters: the two recorded defects and the shapes of the repository's own tests
+// fixed clusters: the inputs of the repaired findings KF-C10-1/2/3 and the shapes of the repository's own tests
 func (ru *run) fixed() {
 	mk := func(part string, nodes ...node) cluster {
 		c := cluster{part: part, nodes: nodes}
@@ -532,10 +570,14 @@ func (ru *run) fixed() {
 		}
 		return o
 	}
-	// D1: ring {A:0,5; B:10; C:20}, one rack, rf {dc1:2}
+	// KF-C10-1: ring {A:0,5; B:10; C:20}, one rack, rf {dc1:2}
 	ru.cluster(mk("m", node{1, 1, 1, b(0, 5)}, node{2, 1, 1, b(10)}, node{3, 1, 1, b(20)}), []string{"1=2", "1=3", "1=1"}, []int{2}, 100)
-	// D2: keyspace {dc1:1, dc2:1}, ring has dc1 and dc3
+	// KF-C10-2: keyspace {dc1:1, dc2:1}, ring has dc1 and dc3
 	ru.cluster(mk("m", node{1, 1, 1, b(0)}, node{2, 3, 1, b(10)}), []string{"1=1,2=1", "1=1", "1=1,3=1", "2=1"}, []int{1}, 100)
+	// KF-C10-3: A(r1):0, B(r1):10, C(r2) without tokens, rf {dc1:2}
+	tl := mk("m", node{1, 1, 1, b(0)}, node{2, 1, 1, b(10)}, node{3, 1, 2, nil})
+	tl.tokless = true
+	ru.cluster(tl, []string{"1=2", "1=1", "1=3"}, []int{2}, 100)
 	// empty ring, single node
 	ru.cluster(mk("m"), []string{"1=1", "-"}, []int{0, 1}, 100)
 	ru.cluster(mk("r", node{1, 1, 1, b(7)}), []string{"1=1", "1=3", "2=1", "-"}, []int{0, 1, 3}, 100)
